@@ -31,6 +31,7 @@ void io_budget(uint64_t n);                     // 0 = unlimited; beyond it ever
 bool budget_exceeded();
 int open_fds();
 void size_cap(uint64_t bytes);
+uint64_t cap_hits();          // number of writes refused with ENOSPC because of the cap (monotone counter)
 // hook called before every backend I/O call (used by the deterministic scheduler)
 extern void (*io_hook)(int kind);
 
